@@ -435,10 +435,103 @@ class H2Pair:
             pass          # the script addresses a stream the peer has already closed: nothing to send
 
 
+class H3World(PreciseWorld):
+    """the HTTP/3 connection layers sit on the QUIC layers, which report a closed connection as QuicConnectionClosed"""
+
+    def _handle(self, event):
+        from mitmproxy.proxy.layers import quic
+        if isinstance(event, events.ConnectionClosed) and not isinstance(event, quic.QuicConnectionClosed):
+            event = quic.QuicConnectionClosed(event.connection, 0, None, "peer closed connection")
+        super()._handle(event)
+
+
+class H3Pair:
+    """an HTTP/3 client and server (mitmproxy's LayeredH3Connection over aioquic's H3Connection, as independent
+    instances) exchanging QUIC stream events with the proxy's Http3Server / Http3Client; same script steps as H2Pair"""
+
+    def __init__(self, w):
+        from mitmproxy import connection
+        from mitmproxy.proxy.layers.http._http_h3 import LayeredH3Connection
+        self.w = w
+        self.cconn = connection.Server(address=("proxy", 1), transport_protocol="udp")
+        self.sconn = connection.Client(peername=("proxy", 1), sockname=("srv", 2), transport_protocol="udp")
+        self.cli = LayeredH3Connection(self.cconn, is_client=True)
+        self.srv = LayeredH3Connection(self.sconn, is_client=False)
+        self.pos = 0
+        self.up, self.sids = {}, {}
+
+    def _to_proxy(self, peer, label):
+        from mitmproxy.proxy.layers import quic
+        conn = self.w.conns.get(label)
+        for c in peer.transmit():
+            if conn is None or conn not in self.w.transports: continue
+            if isinstance(c, quic.SendQuicStreamData): self.w.deliver(quic.QuicStreamDataReceived(conn, c.stream_id, c.data, c.end_stream))
+            elif isinstance(c, quic.ResetQuicStream): self.w.deliver(quic.QuicStreamReset(conn, c.stream_id, c.error_code))
+            elif isinstance(c, quic.StopSendingQuicStream): self.w.deliver(quic.QuicStreamStopSending(conn, c.stream_id, c.error_code))
+
+    def pump(self):
+        from mitmproxy.proxy.layers import quic
+        from aioquic.h3 import events as h3ev
+        for _ in range(8):
+            moved = False
+            self._to_proxy(self.cli, "client"); self._to_proxy(self.srv, "server0")
+            while self.pos < len(self.w.trace):
+                t = self.w.trace[self.pos]; self.pos += 1
+                if t[0] != "cmd": continue
+                c = t[2]
+                lab = self.w.label(c.connection)
+                peer, pc = (self.cli, self.cconn) if lab == "client" else (self.srv, self.sconn)
+                if isinstance(c, quic.SendQuicStreamData): e = quic.QuicStreamDataReceived(pc, c.stream_id, c.data, c.end_stream)
+                elif isinstance(c, quic.ResetQuicStream): e = quic.QuicStreamReset(pc, c.stream_id, c.error_code)
+                elif isinstance(c, quic.StopSendingQuicStream): e = quic.QuicStreamStopSending(pc, c.stream_id, c.error_code)
+                else: continue
+                moved = True
+                try:
+                    for x in peer.handle_stream_event(e):
+                        if lab != "client" and isinstance(x, h3ev.HeadersReceived):
+                            path = dict(x.headers).get(b":path")
+                            if path: self.up[path.decode()] = x.stream_id
+                except Exception:
+                    pass          # the peer's own library rejects something the proxy sent: not what is under test
+            if not moved: break
+
+    def step(self, st):
+        k = st[0]
+        try:
+            if k == "creq":
+                _, i, n, end = st[:4]
+                sid = self.cli.get_next_available_stream_id(); self.sids[i] = sid
+                hdr = [(b":method", b"POST" if n or not end else b"GET"), (b":scheme", b"http"), (b":authority", b"example.com"), (b":path", f"/{i}".encode())]
+                self.cli.send_headers(sid, hdr, end_stream=bool(end and not n))
+                if n: self.cli.send_data(sid, b"q" * n, end_stream=bool(end))
+            elif k == "cdata":
+                self.cli.send_data(self.sids[st[1]], b"q" * st[2], end_stream=bool(st[3]))
+            elif k == "ctrailers":
+                self.cli.send_trailers(self.sids[st[1]], [(b"x-trailer", b"t")])
+            elif k == "crst":
+                self.cli.close_stream(self.sids[st[1]], 0x10c)
+            elif k in ("sresp", "sdata", "strailers", "srst"):
+                self.pump()
+                sid = self.up.get(f"/{st[1]}")
+                if sid is None: return
+                if k == "sresp":
+                    _, i, n, end = st[:4]
+                    self.srv.send_headers(sid, [(b":status", b"200")], end_stream=bool(end and not n))
+                    if n: self.srv.send_data(sid, b"r" * n, end_stream=bool(end))
+                elif k == "sdata": self.srv.send_data(sid, b"r" * st[2], end_stream=bool(st[3]))
+                elif k == "strailers": self.srv.send_trailers(sid, [(b"x-trailer", b"t")])
+                else: self.srv.close_stream(sid, 0x10c)
+        except Exception:
+            pass          # the script addresses a stream the peer has already closed: nothing to send
+        self.pump()
+
+
 def run_h2(case):
     """an HTTP/2 client and an HTTP/2 server around the real HttpLayer; returns [(flow, hooknames)]"""
     opts = case.get("opts", {})
-    ctx = make_context(); ctx.client.alpn = b"h2"
+    h3 = bool(case.get("h3"))
+    ctx = make_context(transport="udp") if h3 else make_context()
+    ctx.client.alpn = b"h3" if h3 else b"h2"
     if opts.get("limit"): ctx.options.body_size_limit = str(opts["limit"])
     if opts.get("stream"): ctx.options.stream_large_bodies = str(opts["stream"])
     policy, defer = case.get("policy", {}), case.get("defer", {})
@@ -471,11 +564,11 @@ def run_h2(case):
         return None
 
     def on_connect(w, cmd):
-        cmd.connection.alpn = b"h2"
+        cmd.connection.alpn = b"h3" if h3 else b"h2"
         return "connect failed" if case.get("connfail") else None
 
     global _REC
-    w = PreciseWorld(lhttp.HttpLayer(ctx, HTTPMode.regular), ctx, on_hook=on_hook, on_connect=on_connect)
+    w = (H3World if h3 else PreciseWorld)(lhttp.HttpLayer(ctx, HTTPMode.regular), ctx, on_hook=on_hook, on_connect=on_connect)
     rec = Recorder(HTTPMode.regular, ctx.options)
     _REC = rec
     try:
@@ -486,7 +579,8 @@ def run_h2(case):
 
 def _run_h2_body(w, ctx, case, state, act, rec, flows, flow_hooks):
     w.start()
-    pair = H2Pair(w)
+    pair = H3Pair(w) if case.get("h3") else H2Pair(w)
+    pair.pump()
     for st in case["steps"]:
         if st[0] == "cclose": w.peer_close("client")
         elif st[0] == "sclose":
@@ -775,6 +869,20 @@ class Check(PropertyCheck):
                         if a == "pass" and not d: continue
                         for opts in (OPTS if tier == "thorough" else [rng.pick(OPTS)]):
                             yield self._case(name, steps, {h: [a, a]}, {h: [d, d]} if d else {}, opts=opts)
+        # HTTP/3 client/server pairs: the HTTP/2 skeletons, faults and policies over QUIC stream events
+        for name, steps in H2_SKELETONS:
+            yield {"h2": 1, "h3": 1, "sk": name, "steps": steps, "policy": {}, "defer": {}, "opts": {}}
+            for fault in H2_FAULTS:
+                for pos in range(len(steps) + 1):
+                    if fault == ["connfail"]:
+                        yield {"h2": 1, "h3": 1, "sk": name, "steps": steps, "policy": {}, "defer": {}, "opts": {}, "connfail": 1}; break
+                    yield {"h2": 1, "h3": 1, "sk": name, "steps": steps[:pos] + [fault] + steps[pos:], "policy": {}, "defer": {}, "opts": rng.pick(OPTS)}
+            for h, acts in HOOK_ACTIONS.items():
+                for a in acts:
+                    for d in (0, 1):
+                        if a == "pass" and not d: continue
+                        st = list(steps) + ([["resume"]] * 2 if d and rng.chance(0.5) else [])
+                        yield {"h2": 1, "h3": 1, "sk": name, "steps": st, "policy": {h: [a, a, a]}, "defer": {h: [d, d, d]} if d else {}, "opts": rng.pick(OPTS)}
         if tier == "thorough":
             # policy × fault × position
             for name, steps in SKELETONS:
@@ -851,10 +959,10 @@ class Check(PropertyCheck):
 
     def classify(self, case, obs):
         if not any("requestheaders" in f["hooks"] for f in obs["flows"]): return None
-        return json.dumps([case.get("script", case.get("steps")), case["policy"], case["defer"], case.get("connect"), case["opts"], case.get("h2", 0)], sort_keys=True)
+        return json.dumps([case.get("script", case.get("steps")), case["policy"], case["defer"], case.get("connect"), case["opts"], case.get("h2", 0), case.get("h3", 0)], sort_keys=True)
 
     def branches(self, case, obs):
-        out = ["sk:" + str(case.get("sk"))] + (["http2"] if case.get("h2") else [])
+        out = ["sk:" + str(case.get("sk"))] + ((["http3"] if case.get("h3") else ["http2"]) if case.get("h2") else [])
         for f in obs["flows"]:
             t = f["hooks"]
             out.append("outcome:" + ("response" if "response" in t else "error" if "error" in t else "none"))
